@@ -197,7 +197,7 @@ func ruleZ1(c *Ctx, id string) {
 func ruleZ2(c *Ctx, id string) {
 	V, P, R := c.V, c.P, c.R
 	R.Rule(id, "every pointer drop is a free: stores to Inode.blks slots have fixed writers; a slot is cleared only together with FreeBlock of its previous value; BnumPut(off,0) is paired with FreeBlock of the pointer read from the same offset", 5)
-	freeIndex := c.fn(id, "inode.(*Inode).freeIndex")
+	freeIndex := P.Func("inode.(*Inode).freeIndex") // (FreeBlock(blks[i]); blks[i] = 0 - may be written out)
 	indshrink := c.fn(id, "inode.(*Inode).indshrink")
 	mkroot := P.Func("inode.MkRootInode")
 	allowed := map[*ssa.Function]string{V.bmap: "allocation", freeIndex: "free", V.Decode: "decode", mkroot: "mkfs"}
@@ -213,7 +213,12 @@ func ruleZ2(c *Ctx, id string) {
 					role, ok = allowed[o]
 				}
 			}
-			R.Check(ok, id, FuncName(fn)+"|writes blks", P.Pos(w.Instr.Pos()), "Inode.blks is written only by bmap (allocate), freeIndex (free), Decode and MkRootInode", "writer role: "+role, "a new writer of block pointers can drop a block without freeing it or alias one")
+			if !ok && relPkg(fn) == "inode" && w.Element && w.Val != nil {
+				if k, isk := constInt(w.Val); isk && k == 0 {
+					role, ok = "free (judged by the pairing with FreeBlock below)", true
+				}
+			}
+			R.Check(ok, id, FuncName(fn)+"|writes blks", P.Pos(w.Instr.Pos()), "Inode.blks is written only by bmap (allocate), freeIndex (free: a slot cleared together with FreeBlock), Decode and MkRootInode", "writer role: "+role, "a new writer of block pointers can drop a block without freeing it or alias one")
 			if !w.Element || w.Val == nil {
 				continue
 			}
@@ -230,7 +235,7 @@ func ruleZ2(c *Ctx, id string) {
 						return false
 					}
 					ia2, ok := u.X.(*ssa.IndexAddr)
-					if !ok || ia == nil || ia2.Index != ia.Index {
+					if !ok || ia == nil || !sameIndexExpr(fn, ia2.Index, ia.Index) {
 						return false
 					}
 					n, fl, base := fieldLoad(ia2.X)
@@ -310,7 +315,7 @@ func ruleZ2(c *Ctx, id string) {
 								return false
 							}
 							ia2, ok := st.Addr.(*ssa.IndexAddr)
-							if !ok || ia2.Index != ia.Index {
+							if !ok || !sameIndexExpr(fn, ia2.Index, ia.Index) {
 								return false
 							}
 							n2, f2, b2 := fieldLoad(ia2.X)
@@ -559,6 +564,35 @@ func ruleZ3(c *Ctx, id string) {
 			}
 			return false, false
 		})
+		// the clearing written out in Resize itself: it starts where the block to clear is looked up (a hole there
+		// means there is nothing to clear, as in the helper)
+		var inlineStart ssa.Instruction
+		if clearing[f] {
+			for _, b := range f.Blocks {
+				for _, in := range b.Instrs {
+					st, ok := in.(*ssa.Store)
+					if !ok {
+						continue
+					}
+					if k, isk := constInt(st.Val); !isk || k != 0 {
+						continue
+					}
+					ia, ok := st.Addr.(*ssa.IndexAddr)
+					if !ok {
+						continue
+					}
+					n, fl, base, _ := loadedField(ia.X)
+					if n == nil || n.Obj().Name() != "Buf" || fl != "Data" {
+						continue
+					}
+					for v := range bwdAll(base) {
+						if cl, ok := v.(*ssa.Call); ok && cl.Call.StaticCallee() == V.bmap && cl.Parent() == f {
+							inlineStart = cl
+						}
+					}
+				}
+			}
+		}
 		okAll := true
 		for _, b := range f.Blocks {
 			if _, isRet := b.Instrs[len(b.Instrs)-1].(*ssa.Return); !isRet {
@@ -566,7 +600,7 @@ func ruleZ3(c *Ctx, id string) {
 			}
 			clrBlocks := func(from, to *ssa.BasicBlock) bool {
 				for _, in := range to.Instrs {
-					if clr.Instr(in) {
+					if clr.Instr(in) || (inlineStart != nil && in == inlineStart) {
 						return true
 					}
 				}
@@ -739,4 +773,69 @@ func roundKey(form string) string {
 		return "new size"
 	}
 	return "value"
+}
+
+// sameIndexExpr: two index expressions of fn denote the same slot: the same
+// value, equal constants, or the same expression over fields of an object that
+// nothing between the two evaluations can change (same block, no store to those
+// fields and no call that is handed the object in between).
+func sameIndexExpr(fn *ssa.Function, a, b ssa.Value) bool {
+	a, b = stripConv(a), stripConv(b)
+	if a == b {
+		return true
+	}
+	if ka, ok := constInt(a); ok {
+		kb, ok2 := constInt(b)
+		return ok2 && ka == kb
+	}
+	sa, sb := symOf(fn, a), symOf(fn, b)
+	if sa != sb || strings.Contains(sa, "?") {
+		return false
+	}
+	ia, oka := a.(ssa.Instruction)
+	ib, okb := b.(ssa.Instruction)
+	if !oka || !okb || ia.Block() != ib.Block() {
+		return false
+	}
+	// what the expressions read
+	var bases []ssa.Value
+	for v := range bwdArith(a) {
+		if u, ok := v.(*ssa.UnOp); ok && u.Op == token.MUL {
+			if fa, ok := u.X.(*ssa.FieldAddr); ok {
+				bases = append(bases, stripConv(fa.X))
+			}
+		}
+	}
+	between := false
+	for _, in := range ia.Block().Instrs {
+		if in == ia || in == ib {
+			if between {
+				return true
+			}
+			between = true
+			continue
+		}
+		if !between {
+			continue
+		}
+		switch x := in.(type) {
+		case *ssa.Store:
+			if fa, ok := x.Addr.(*ssa.FieldAddr); ok {
+				for _, bs := range bases {
+					if stripConv(fa.X) == bs {
+						return false
+					}
+				}
+			}
+		case *ssa.Call:
+			for _, arg := range x.Call.Args {
+				for _, bs := range bases {
+					if stripConv(arg) == bs {
+						return false
+					}
+				}
+			}
+		}
+	}
+	return true
 }
